@@ -20,7 +20,13 @@ def run(tier, seed):
                                'claim': 'strict (and None) iff names equal; reflexive; symmetric; strict <= medium <= permissive'})
     ctx.trusted.extend(['A-pandas: list(df), dtype.name, len, round, equals, eq, isnull, sort_values, boolean indexing at their '
                         'pandas meaning', 'z3; pyvc encoding'])
-    ctx.assumptions.extend(['the decision skeleton of check_dataframe is decided by the bounded layer only'])
+    ctx.assumptions.extend([
+        'check_dataframe verdict skeleton: proved for every option-flag combination of four views (order / columns / level / data) '
+        'over a finite family of column layouts (reference a,b,c; actual one of 9 layouts incl. permuted, missing, extra columns); '
+        'row counts, types_match per column and the differing-cell count are unconstrained symbols, so the proof is for all contents '
+        'but only for the enumerated layouts and flag values -- other layouts are covered by the bounded layer only',
+        'types_match, same_structure_ddiff, replace_cats and the message builders enter by assumed contracts (uninterpreted results); '
+        'their own behaviour is audited by the bounded layer (dtype-pair laws exhaustively, cell oracle by cases)'])
     from bounded.core import attach
     attach(ctx, pb.run((PID,), tier, seed))
     return finish(ctx, 'other')
